@@ -74,7 +74,7 @@ def br_min(m, l, r):  # noqa: E741
 
 
 def placements(m):
-    return [p for p in T.PLACEMENTS if not (p == "pair" and m < 2)]
+    return [p for p in T.PLACEMENTS if not (p in ("pair", "close") and m < 2)]
 
 
 def lattice(thorough):
